@@ -63,6 +63,7 @@ type Contract struct {
 	MayPanic  bool
 	Pure      bool
 	NoSafety  bool
+	Effect    string   // "", "nonblocking", "bounded": blocking-effect class (C05)
 	Consumes  []string // ghost tokens given away by the call/send/spawn: checked == 1, then set to 0
 	Produces  []string // chanfield: ghost tokens obtained by the receiver: set to 1 // implicit panics are assumed away, not checked, under this contract
 	Defines   []*Clause
@@ -116,7 +117,7 @@ func (c *Contract) nilable(name string, isRecv bool) bool {
 	return c.Nilable[name]
 }
 
-var clauseKeywords = map[string]bool{"consumes": true, "produces": true, "nosafety": true, "invariant": true, "history": true, "atsend": true, "atcall": true, "nilable": true, "pure": true, "defines": true, "requires": true, "ensures": true, "modifies": true, "loop": true, "property": true,
+var clauseKeywords = map[string]bool{"effect": true, "consumes": true, "produces": true, "nosafety": true, "invariant": true, "history": true, "atsend": true, "atcall": true, "nilable": true, "pure": true, "defines": true, "requires": true, "ensures": true, "modifies": true, "loop": true, "property": true,
 	"inline": true, "trusted": true, "nilrecv": true, "maypanic": true, "label": true, "replay": true, "topensures": true}
 
 func (e *Engine) loadContracts(dir string, pkg *types.Package) error {
@@ -306,6 +307,17 @@ func (e *Engine) loadContractFile(path string, pkg *types.Package) error {
 			e.structInvs = append(e.structInvs, si)
 			lastClause = si.Clause
 			pendingPred, cur, curMon = nil, nil, nil
+			continue
+		case kw == "lockclass":
+			// lockclass Type.mutexPath nonblocking: every critical section of this mutex must be non-blocking
+			if len(fields) != 3 || fields[2] != "nonblocking" {
+				return fail(fmt.Errorf("expected: lockclass Type.mutex nonblocking"))
+			}
+			if e.lockClasses == nil {
+				e.lockClasses = map[string]bool{}
+			}
+			e.lockClasses[pkg.Path()+"."+fields[1]] = true
+			pendingPred, cur, lastClause = nil, nil, nil
 			continue
 		case kw == "owned":
 			// owned T ghost: every access through a *T requires ghost(obj) == 1
@@ -533,6 +545,11 @@ func (e *Engine) loadContractFile(path string, pkg *types.Package) error {
 		case "produces":
 			cur.Produces = append(cur.Produces, splitTop(rest, ',')...)
 			lastClause = nil
+		case "effect":
+			if rest != "nonblocking" && rest != "bounded" {
+				return fail(fmt.Errorf("effect must be nonblocking or bounded"))
+			}
+			cur.Effect = rest
 		case "nosafety":
 			cur.NoSafety = true
 		case "pure":
@@ -767,6 +784,9 @@ func mergeContracts(old, c *Contract) {
 		old.ModAllBut = nil
 	default:
 		old.Modifies = append(old.Modifies, c.Modifies...)
+	}
+	if old.Effect == "" {
+		old.Effect = c.Effect
 	}
 	old.Pure = old.Pure || c.Pure
 	old.NoSafety = old.NoSafety || c.NoSafety
